@@ -664,6 +664,23 @@ pub fn general_spaces(o: &GenOpts) -> Vec<Space> {
     v.push(space("second run on a graph value that an earlier run (either order, & / &mut) was completed on, 10 _with APIs x order, shapes 1<=n<=3", shapes_upto(1, 3, false), None, move |s| {
         cfgs_after_earlier_run(s.n, &Api::all_with(), with_streams)
     }));
+    v.push(space("every edge declared a second time through the batch form (same kind / other kind), shapes 2<=n<=3, 10 _with APIs x order, streams", {
+        let mut specs = vec![];
+        for s in shapes_upto(2, 3, false).into_iter().filter(|s| !s.edges.is_empty()) {
+            for r in [1u8, 2] {
+                let mut t = s.clone();
+                t.redeclare = r;
+                specs.push(t);
+            }
+        }
+        specs
+    }, None, move |s| {
+        let mut c = cfgs_plain(s.n, &Api::all_with(), &[None], &REVS);
+        if with_streams {
+            c.extend(cfgs_stream_plain(&[SApi::Stream, SApi::StreamWith], &REVS, 0, false, false));
+        }
+        c
+    }));
     v.push(space("StreamOpts builder methods called in every order (non-default values for all three settings), shapes 1<=n<=3", shapes_upto(1, 3, false), None, move |s| {
         cfgs_opts_orders(s.n, &Api::all_with(), &[None], with_streams)
     }));
